@@ -23,7 +23,14 @@ func (fx *FuncExec) call(ps *pathState, x *ssa.Call) {
 	if b, ok := cc.Value.(*ssa.Builtin); ok {
 		// rule-site assertions can be anchored at builtin calls too (delete#k, append#k, copy#k)
 		if site := fx.callOrd[x]; site != "" && b.Name() != "len" && b.Name() != "cap" {
-			fx.siteAsserts(ps, site, "before", nil)
+			// arg0, arg1, ... name the actual arguments here too (append: arg1 is the slice of appended elements)
+			argVars := map[string]Val{}
+			if fx.con != nil && len(fx.con.Sites) > 0 {
+				for i, a := range cc.Args {
+					argVars[fmt.Sprintf("arg%d", i)] = fx.val(st, a)
+				}
+			}
+			fx.siteAsserts(ps, site, "before", argVars)
 		}
 		fx.builtin(ps, x, b)
 		return
